@@ -237,6 +237,11 @@ def main(argv):
     # on the unchanged tree (it is in the ledger) and the function touches no state that is new relative to the ledger.  A brand-new
     # obligation, or a function that reads/writes an attribute no contract of this property has ever seen (new hidden state, for which
     # no invariant exists), needs a confirmed native replay; otherwise the verdict is "undecided: needs a contract", never an alarm.
+    # pinned statements (parse-tree obligations) whose bounded stand-in ran and found nothing: the code was rewritten, behaviour not shown to differ
+    covered_ok = set()
+    for b in res.bounded:
+        if b.get('ok'):
+            covered_ok |= set(b.get('covers') or [])
     fields0 = set(base_ms.get('__fields__') or [])
     have_ledger = any(not k.startswith('__') for k in base_ms)
     needs_contract = []
@@ -246,6 +251,12 @@ def main(argv):
         confirmed = bool(native and native.get('confirmed'))
         new_ob = have_ledger and name not in base_ms
         new_fields = sorted(set(o.meta.get('fields') or ()) - fields0) if fields0 else []
+        pin_ok = bool(o.meta.get('pin') and o.meta.get('standin') and o.meta.get('standin') in covered_ok)
+        if not confirmed and pin_ok:
+            needs_contract.append((name, 'the pinned statement was rewritten (%s) but the bounded stand-in %r that exercises it found no failing input'
+                                   % ((o.meta.get('detail') or '')[:80], o.meta.get('standin'))))
+            del vio_groups[name]
+            continue
         if not confirmed and (new_ob or new_fields):
             why = ('obligation not in the ledger (never discharged on the unchanged tree)' if new_ob else
                    'function touches state unknown to the contracts: %s' % ', '.join(new_fields[:4]))
@@ -256,7 +267,7 @@ def main(argv):
         tail = '' if confirmed else ' no-failing-input-found'
         print('VIOLATION property=%s replay=%s obligation=%s%s' % (prop, path, name, tail))
     for name, why in needs_contract:
-        print('UNDECIDED property=%s obligation=%s refuted but no failing input was reproduced and %s: needs a contract' % (prop, name, why))
+        print('UNDECIDED property=%s obligation=%s refuted but no failing input was reproduced and %s: needs review / a contract' % (prop, name, why))
     # A function that left the verifier's subset cannot be decided deductively.  The property module may supply a bounded native stand-in
     # for it (same hook as the replay builders): a concrete failing input found on the real code is reported as a violation of the
     # pseudo-obligation <function>/outside-subset.bounded-stand-in; anything else stays UNDECIDED.  Never counted as proved.
